@@ -55,8 +55,18 @@ func newDisjunctionSearcher(indexReader search.Reader,
 		optionsDisjunctionOptimizable(options) {
 		rv, err := optimizeCompositeSearcher("disjunction:unadorned",
 			indexReader, qsearchers, options)
-		if err != nil || rv != nil {
-			return rv, err
+		if err != nil {
+			return nil, err
+		}
+		if ts, ok := rv.(*TermSearcher); ok && ts != nil {
+			// the rewritten searcher stands in for the whole disjunction,
+			// so it has to keep reporting the requested min (a
+			// BooleanSearcher uses it to tell required from optional
+			// should clauses)
+			ts.min = min
+		}
+		if rv != nil {
+			return rv, nil
 		}
 	}
 
